@@ -997,20 +997,22 @@ def correspond(ctx):
     for name, qs in singles:
         N = max(qs) + 1 if rng.random() < 0.3 else 3
         cases.append(dict(kind="circuit", N=max(N, max(qs) + 1), gates=[placed(rng, name, qs)], users={}, seed=rng.randrange(2 ** 31)))
-    # ordered pairs of placed gates on 3 qubits
+    # ordered pairs of placed gates on 3 qubits: ALL of them in thorough (in a seeded random order, processed last and
+    # cut off by a time budget - the evidence notes how many were reached), a seeded sample in quick
     P3 = all_placed(3)
     if ctx.thorough:
         pairs = [(a, b) for a in P3 for b in P3]
-        pairs = rng.sample(pairs, 6000)
+        rng.shuffle(pairs)
         cheap = ["unitary", "compact", "run_ket", "run_dm"]
     else:
         pairs = [(rng.choice(P3), rng.choice(P3)) for _ in range(150)]
         cheap = None
+    pair_cases = []
     for i, (a, b) in enumerate(pairs):
         c = dict(kind="circuit", N=3, gates=[placed(rng, a[0], a[1]), placed(rng, b[0], b[1])], users={}, seed=rng.randrange(2 ** 31))
-        if cheap and i % 4:
+        if cheap and i % 8:
             c["paths"] = cheap
-        cases.append(c)
+        pair_cases.append(c)
     for _ in range(ctx.n(150, 1200)):
         cases.append(gen_random_circuit(rng))
     for _ in range(ctx.n(25, 100)):
@@ -1028,8 +1030,20 @@ def correspond(ctx):
         cases.append(gen_mult(rng))
     for _ in range(ctx.n(50, 300)):
         cases.append(gen_exact(rng))
+    import time
     for case in cases:
         process(corr, case, coq, einsum_seen)
+    deadline = ctx.t0 + float(os.environ.get("VERIF_C01_PAIR_BUDGET", "400"))
+    done = 0
+    for case in pair_cases:
+        if ctx.thorough and done % 50 == 0 and time.time() > deadline:
+            break
+        process(corr, case, coq, einsum_seen)
+        done += 1
+    corr.extra["ordered_pairs_on_3_qubits"] = dict(total=len(P3) ** 2, run=done)
+    if ctx.thorough:
+        ctx.notes.append(f"ordered pairs of placed library gates on 3 qubits: {done} of {len(P3) ** 2} run "
+                         f"({'exhaustive' if done == len(P3) ** 2 else 'time budget reached; seeded random order'})")
     evaluate_models(ctx, corr, coq, einsum_seen)
     corr.extra["einsum_label_shapes"] = len(einsum_seen)
     return corr
